@@ -25,13 +25,15 @@ type pureObjs struct {
 	db     *signature.SignatureDatabase
 	upd    efivar.Marshallable
 	cert   [2][]byte // DER of two certificates: signer, stranger
+	auth   *signature.EFIVariableAuthentication2
 	lists  []*signature.SignatureList
 	owners [][]byte
 	data   [][]byte
 }
 
 var pureMethods = []string{"img.Hash", "img.Bytes", "img.Open", "img.Signatures", "img.Verify0", "img.Verify1",
-	"db.Bytes", "db.Marshal", "db.BytesExists0", "db.BytesExists1", "db.SigDataExists", "db.Exists", "upd.Marshal", "upd.Bytes"}
+	"db.Bytes", "db.Marshal", "db.BytesExists0", "db.BytesExists1", "db.BytesExistsX509", "db.SigDataExists", "db.Exists", "upd.Marshal", "upd.Bytes",
+	"auth.Marshal", "auth.Verify0", "auth.Verify1"}
 
 func h8(b []byte) string { s := sha256.Sum256(b); return hx(s[:8]) }
 
@@ -69,6 +71,16 @@ func (o *pureObjs) call(m string) string {
 		return fmt.Sprint(o.db.SigDataExists(signature.CERT_SHA256_GUID, &signature.SignatureData{Owner: guidFromWire(o.owners[0]), Data: o.data[0]}))
 	case "db.Exists":
 		return fmt.Sprint(o.db.Exists(signature.CERT_SHA256_GUID, o.lists[0]))
+	case "db.BytesExistsX509": // a query for the type of a list that is not the first one
+		return fmt.Sprint(o.db.BytesExists(signature.CERT_X509_GUID, guidFromWire(o.owners[0]), o.cert[0]))
+	case "auth.Marshal": // the decoded authentication descriptor of the signed update
+		var b bytes.Buffer
+		o.auth.Marshal(&b)
+		return h8(b.Bytes())
+	case "auth.Verify0", "auth.Verify1":
+		c := mustCert(o.cert[int(m[len(m)-1]-'0')])
+		ok, err := o.auth.Verify(c)
+		return fmt.Sprint(ok, err == nil)
 	case "upd.Marshal":
 		var b bytes.Buffer
 		o.upd.Marshal(&b)
@@ -118,6 +130,9 @@ func init() {
 			return "err", "signvar"
 		}
 		o.upd = upd
+		if o.auth, err = signature.ReadEFIVariableAuthencation2(bytes.NewReader(upd.Bytes())); err != nil {
+			return "err", "read descriptor"
+		}
 		// reference results: first call of each method on the fresh objects
 		ref := map[string]string{}
 		var diffs []string
@@ -234,7 +249,7 @@ func c19Gen(c *Ctx) {
 
 func init() {
 	register("C19", &PropDef{
-		Rule:   "for each of several signed images (generated layouts and a repository binary; parsed-and-signed in place or re-parsed from bytes), a database (built or decoded) and a signed-update value: the 14 read-only methods (Hash, Bytes, Open, Signatures, Verify x2; Bytes, Marshal, BytesExists x2, SigDataExists, Exists; Marshal, Bytes) are called once for reference, then 40 times sequentially in random order, then from 2/4/8/16 goroutines (25..100 random calls each) on the SAME objects, then once more each; every result must equal the first. The worker is the -race build, so any data race aborts the run. Every case is non-trivial; distinct = distinct (image, schedule seed, goroutine count).",
+		Rule:   "for each of several signed images (generated layouts and a repository binary; parsed-and-signed in place or re-parsed from bytes), a database (built or decoded) and a signed-update value: the 18 read-only methods (image: Hash, Bytes, Open, Signatures, Verify x2; database: Bytes, Marshal, BytesExists x3 incl. a type whose list is not the first, SigDataExists, Exists; signed update: Marshal, Bytes; its decoded descriptor: Marshal, Verify x2) are called once for reference, then 40 times sequentially in random order, then from 2/4/8/16 goroutines (25..100 random calls each) on the SAME objects, then once more each; every result must equal the first. The worker is the -race build, so any data race aborts the run. Every case is non-trivial; distinct = distinct (image, schedule seed, goroutine count).",
 		Assume: []string{"data-race freedom under the Go memory model is a runtime fact: the race detector observes the schedules that happen to occur in the sampled runs"},
 		Eval:   c19Eval, Gen: c19Gen,
 	})
